@@ -1834,7 +1834,8 @@ class _Date(Vector):
 			if other.schema() is not None and other.schema().kind == str:
 				return Vector(tuple(False if (x is None or y is None) else bool(op(x, date.fromisoformat(y))) for x, y in zip(self, other, strict=True)), dtype=DataType(bool))
 			if other.schema() is not None and other.schema().kind == datetime:
-				return Vector(tuple(False if (x is None or y is None) else bool(op(_at_midnight(x), y)) for x, y in zip(self, other, strict=True)), dtype=DataType(bool))
+				# (a <datetime> vector may still hold plain dates: both sides are compared as datetimes)
+				return Vector(tuple(False if (x is None or y is None) else bool(op(_at_midnight(x), _at_midnight(y))) for x, y in zip(self, other, strict=True)), dtype=DataType(bool))
 		elif isinstance(other, Iterable) and not isinstance(other, (str, bytes, bytearray)):
 			# Raise mismatched lengths
 			if len(self) != len(other):
